@@ -11,9 +11,13 @@ import (
 	_ "verif/checks/c01"
 	_ "verif/checks/c02"
 	_ "verif/checks/c03"
+	_ "verif/checks/c09"
 	_ "verif/checks/c13"
 	_ "verif/checks/c14"
+	_ "verif/checks/c15"
+	_ "verif/checks/c16"
 	_ "verif/checks/c17"
+	_ "verif/checks/c18"
 	_ "verif/checks/queue"
 	"verif/engine"
 )
